@@ -34,6 +34,8 @@ import (
 	"log/slog"
 	"math"
 	"os"
+	"path/filepath"
+	"reflect"
 	"regexp"
 	"runtime"
 	"sort"
@@ -42,6 +44,7 @@ import (
 	"sync"
 	"sync/atomic"
 	"time"
+	"unsafe"
 
 	gproto "google.golang.org/protobuf/proto"
 	"google.golang.org/protobuf/types/known/timestamppb"
@@ -651,7 +654,65 @@ func (r *run) readBack(step int, exp map[string]any, where string) bool {
 			return false
 		}
 	}
+	// the two read paths of every operator's database agree: what ScanPrefix yields (the path keyed state and timers
+	// use) is what Get returns for that key (point lookups take another way through the levels; after a restore from
+	// several checkpoints level 0 holds tables of every source)
+	for _, nd := range r.cur.nodes {
+		db := operatorDB(nd.op)
+		if db == nil {
+			continue
+		}
+		bad := ""
+		func() {
+			defer func() {
+				if p := recover(); p != nil {
+					bad = fmt.Sprintf("reading the database of operator %s panics: %v", nd.id, p)
+					if os.Getenv("RESCALE_DEBUG") != "" {
+						fmt.Fprintln(os.Stderr, "DEBUG", nd.id, "deploy:", nd.deploy, "\n", db.Diagnostics())
+						filepath.WalkDir(r.dir, func(p string, d os.DirEntry, err error) error { fmt.Fprintln(os.Stderr, "  ", p); return nil })
+					}
+				}
+			}()
+			var serr error
+			for e := range db.ScanPrefix(nil, &serr) {
+				g, err := db.Get(e.Key())
+				r.res.Count("get_vs_scan_probes", 1)
+				switch {
+				case err != nil:
+					bad = fmt.Sprintf("%s: operator %s: ScanPrefix yields key %q but Get fails: %v", where, nd.id, e.Key(), err)
+				case g.IsDelete():
+					bad = fmt.Sprintf("%s: operator %s: ScanPrefix yields key %q but Get returns a delete marker", where, nd.id, e.Key())
+				case string(g.Value()) != string(e.Value()):
+					bad = fmt.Sprintf("%s: operator %s: Get(%q) returns %q, ScanPrefix yields %q for the same key", where, nd.id, e.Key(), g.Value(), e.Value())
+				}
+				if bad != "" {
+					return
+				}
+			}
+			if serr != nil {
+				bad = fmt.Sprintf("%s: operator %s: ScanPrefix fails: %v", where, nd.id, serr)
+			}
+		}()
+		if bad != "" {
+			r.violate(step, bad, nil, nil)
+			return false
+		}
+	}
 	return true
+}
+
+// operatorDB reads the unexported db field of a real Operator (harness only).
+func operatorDB(op *operator.Operator) (db *dkv.DB) {
+	defer func() {
+		if recover() != nil {
+			db = nil
+		}
+	}()
+	f := reflect.ValueOf(op).Elem().FieldByName("db")
+	if !f.IsValid() || f.IsNil() {
+		return nil
+	}
+	return (*dkv.DB)(unsafe.Pointer(f.Pointer()))
 }
 
 // fire: watermark t to one operator; the timers its handler is given
